@@ -46,6 +46,20 @@ def get_cls(name):
 
 
 class MayMixin(object):
+    def begin(self, model, slot, cid, args, kwargs):
+        """order-sensitive conditions (`d.order_sensitive`): their outcome is inverted when the last prepare-stage
+        callback started on behalf of the model was a machine-level `prepare_event` one. They are generated only on
+        transitions that carry `prepare` callbacks of their own, so in the trigger AND in may_ the transition's own
+        prepare callbacks come last — unless one of the two evaluates the prepare stage in another order."""
+        cmds, out = super(MayMixin, self).begin(model, slot, cid, args, kwargs)
+        last = self.__dict__.setdefault('last_prep', {})
+        if slot in (SLOT['prepare_event'], SLOT['prepare']):
+            last[model._mid] = slot
+        elif cid in getattr(self.d, 'order_sensitive', ()) and out[0] == 'ret' \
+                and last.get(model._mid) == SLOT['prepare_event']:
+            out = ('ret', not out[1])
+        return cmds, out
+
     async def ado_cmd(self, c):
         kind, a, b = c
         if kind != MAY:
@@ -98,7 +112,7 @@ def prep(d, nested, rng):
 
 def knobs_predict():
     return flat.Knobs(max_models=2, p_unknown_event=0.0, max_history=5, deterministic=True, max_states=5, max_events=3,
-                      p_cond_false=0.45)
+                      p_cond_false=0.45, p_share_cb=0.0)
 
 
 def knobs_routing():
@@ -119,6 +133,7 @@ def with_history(d, hist):
             if k in s_old:
                 s_new[k] = s_old[k]
     d2.history = list(hist)
+    d2.order_sensitive = getattr(d, 'order_sensitive', ())
     return d2
 
 
@@ -427,6 +442,25 @@ def build_case(kind, setup_idx, sub):
     kn.p_bad_dest = 0.45 if kind == 'baddest' else 0.0
     d = flat.gen_flat(rng, kn)
     prep(d, setup[2], rng)
+    if kind == 'predict':
+        # conditions that read what the prepare stage left behind (see MayMixin.begin); drawn from an own generator so
+        # that the rest of the description does not depend on them
+        r2 = random.Random(sub ^ 0x0D0E)
+        if not d.prepare_event and r2.random() < 0.5:
+            c = max(list(d.cb_slot) + [-1]) + 1
+            d.cb_slot[c] = SLOT['prepare_event']
+            d.prepare_event = [c]
+        sens = set()
+        if d.prepare_event:
+            for _e, ts in d.events:
+                for t in ts:
+                    if not t['prepare'] and t['conds'] and r2.random() < 0.4:
+                        c = max(list(d.cb_slot) + [-1]) + 1
+                        d.cb_slot[c] = SLOT['prepare']
+                        t['prepare'] = [c]
+                    if t['prepare']:
+                        sens.update(c for c, _tg in t['conds'] if r2.random() < 0.6)
+        d.order_sensitive = frozenset(sens)
     if kind == 'routing' and setup[3]:
         # async stages run as gather: keep every stage to one callback so that the routing clause is unambiguous
         for s in d.states:
